@@ -375,3 +375,11 @@ import pipeline as _pl
 LEAN_MODULES = LEAN_MODULES + [m for m in _pl.LEAN_MODULES2 if m not in LEAN_MODULES]
 THEOREMS = THEOREMS + [t for t in _pl.THEOREMS2.get(ID, []) if t not in THEOREMS]
 GEN = GEN + [g for g in _pl.GEN if g not in GEN]
+
+
+# ---- refinement lemmas of the unified pipeline model for this property (Props/Pipeline3.lean): the fragment this check's
+# theorems are about IS what the whole-program model computes on instant / probability expressions
+import pipeline as _pl3
+LEAN_MODULES = LEAN_MODULES + [m for m in _pl3.LEAN_MODULES3 if m not in LEAN_MODULES]
+THEOREMS = THEOREMS + [t for t in _pl3.THEOREMS3.get(ID, []) if t not in THEOREMS]
+GEN = GEN + [g for g in _pl3.GEN3 if g not in GEN]
